@@ -128,6 +128,68 @@ def one(prog):
     return {"queues": queues, "nobj": len(r.objs), "raised": raised, "stack_ok": bool(stack_ok)}
 
 
+# ---- eager constructors (outside the proved wrapper kinds): the operand is consumed, only the result is recorded
+EAGER = {
+    "pow_X_2": lambda: (qp.X(0), lambda b: qp.pow(b, 2, lazy=False)),
+    "pow_H_2": lambda: (qp.H(0), lambda b: qp.pow(b, 2, lazy=False)),
+    "pow_S_0": lambda: (qp.S(0), lambda b: qp.pow(b, 0, lazy=False)),
+    "pow_SX_4": lambda: (qp.SX(0), lambda b: qp.pow(b, 4, lazy=False)),
+    "pow_SX_2": lambda: (qp.SX(0), lambda b: qp.pow(b, 2, lazy=False)),
+    "pow_RX_2": lambda: (qp.RX(0.4, 0), lambda b: qp.pow(b, 2, lazy=False)),
+    "pow_X_3": lambda: (qp.X(0), lambda b: qp.pow(b, 3, lazy=False)),
+    "pow_X_half": lambda: (qp.X(0), lambda b: qp.pow(b, 0.5, lazy=False)),
+    "pow_CNOT_2": lambda: (qp.CNOT([0, 2]), lambda b: qp.pow(b, 2, lazy=False)),
+    "pow_Rot_2": lambda: (qp.Rot(0.1, 0.2, 0.3, 0), lambda b: qp.pow(b, 2, lazy=False)),
+    "pow_Rot_undef": lambda: (qp.Rot(0.1, 0.2, 0.3, 0), lambda b: qp.pow(b, 0.5, lazy=False)),
+    "adj_S": lambda: (qp.S(0), lambda b: qp.adjoint(b, lazy=False)),
+    "adj_X": lambda: (qp.X(0), lambda b: qp.adjoint(b, lazy=False)),
+    "adj_RX": lambda: (qp.RX(0.3, 0), lambda b: qp.adjoint(b, lazy=False)),
+    "adj_Rot": lambda: (qp.Rot(0.1, 0.2, 0.3, 0), lambda b: qp.adjoint(b, lazy=False)),
+    "adj_adj": lambda: (qp.adjoint(qp.S(0)), lambda b: qp.adjoint(b, lazy=False)),
+    "simplify": lambda: (qp.adjoint(qp.RX(0.3, 0)), lambda b: qp.simplify(b)),
+    "exp": lambda: (qp.X(0), lambda b: qp.exp(b, 0.5j)),
+    "evolve": lambda: (qp.X(0), lambda b: qp.evolve(b, 0.5)),
+    "ctrl_X": lambda: (qp.X(0), lambda b: qp.ctrl(b, 2)),
+    "ctrl_Z2": lambda: (qp.Z(0), lambda b: qp.ctrl(b, [2, 3])),
+    "sum": lambda: (qp.X(0), lambda b: b + qp.Z(0)),
+    "sub": lambda: (qp.X(0), lambda b: b - qp.Z(0)),
+    "neg": lambda: (qp.X(0), lambda b: -b),
+    "dunder_pow": lambda: (qp.X(0), lambda b: b ** 2),
+    "var": lambda: (qp.X(0), lambda b: qp.var(b)),
+    "sample": lambda: (qp.X(0), lambda b: qp.sample(b)),
+}
+
+
+def eager(name, nested):
+    QueuingManager._active_contexts = []
+    try:
+        with AnnotatedQueue() as outer:
+            o0 = qp.Y(5)
+            if nested:
+                with AnnotatedQueue() as q:
+                    pre = qp.H(1)
+                    base, f = EAGER[name]()
+                    res = f(base)
+                    post = qp.T(1)
+            else:
+                q = outer
+                pre = qp.H(1)
+                base, f = EAGER[name]()
+                res = f(base)
+                post = qp.T(1)
+    except Exception as e:
+        QueuingManager._active_contexts = []
+        return {"crash": type(e).__name__ + ": " + str(e)[:200]}
+    tag = lambda o: ("o0" if o is o0 else "pre" if o is pre else "post" if o is post else
+                     "res" if o is res else "base" if o is base else "other:" + repr(o)[:40])
+    return {"inner": [tag(o) for o in q.queue], "outer": [tag(o) for o in outer.queue],
+            "same": res is base, "stack_ok": QueuingManager._active_contexts == []}
+
+
 if __name__ == "__main__":
-    out = [one(p) for p in json.load(sys.stdin)["cases"]]
-    print(json.dumps(out))
+    inp = json.load(sys.stdin)
+    if "eager" in inp:
+        print(json.dumps({"names": sorted(EAGER), "obs": {n: [eager(n, False), eager(n, True)] for n in sorted(EAGER)}}))
+    else:
+        out = [one(p) for p in inp["cases"]]
+        print(json.dumps(out))
